@@ -65,6 +65,9 @@ func compare(sent, got any) *diff {
 	a := reflect.Indirect(reflect.ValueOf(sent))
 	b := reflect.Indirect(reflect.ValueOf(got))
 	for i := 0; i < a.NumField(); i++ {
+		if !a.Type().Field(i).IsExported() {
+			continue // never travels (declaration family, decl.go)
+		}
 		fa, fb := a.Field(i), b.Field(i)
 		name := a.Type().Field(i).Name
 		if fa.Kind() == reflect.Slice {
@@ -125,6 +128,9 @@ func carrierVerdict(src source, split bool, v any) (legal, commaUnderSplit bool)
 		}
 	}
 	for i := 0; i < a.NumField(); i++ {
+		if !a.Type().Field(i).IsExported() {
+			continue
+		}
 		f := a.Field(i)
 		if f.Kind() == reflect.Slice {
 			for j := 0; j < f.Len(); j++ {
@@ -140,6 +146,9 @@ func carrierVerdict(src source, split bool, v any) (legal, commaUnderSplit bool)
 func isZeroStruct(v any) bool {
 	a := reflect.ValueOf(v)
 	for i := 0; i < a.NumField(); i++ {
+		if !a.Type().Field(i).IsExported() {
+			continue
+		}
 		f := a.Field(i)
 		if f.Kind() == reflect.Slice {
 			if f.Len() != 0 {
@@ -156,7 +165,9 @@ func isZeroStruct(v any) bool {
 func onlyField(v any, i int) any {
 	a := reflect.ValueOf(v)
 	n := reflect.New(a.Type()).Elem()
-	n.Field(i).Set(a.Field(i))
+	if a.Type().Field(i).IsExported() {
+		n.Field(i).Set(a.Field(i))
+	}
 	return n.Interface()
 }
 
@@ -200,6 +211,9 @@ func interesting(v any) bool {
 		}
 	}
 	for i := 0; i < a.NumField(); i++ {
+		if !a.Type().Field(i).IsExported() {
+			continue
+		}
 		f := a.Field(i)
 		if f.Kind() == reflect.Slice {
 			if f.Len() > 0 {
